@@ -296,6 +296,8 @@ class Interp:
         self.uid_counter = 10 ** 9
         self.builtins = {}
         self.rng_log = []
+        self._xdispatch = {}
+        self._edispatch = {}
         self._mk_builtins()
 
     def make_ufunc(self, name, arity, ret="bool", fault=None, fault_exc=None, label=None):
@@ -375,9 +377,10 @@ class Interp:
     def wrapb(self, t):
         if isinstance(t, bool):
             return t
-        if z3.is_true(t):
+        r = z3.Z3_get_bool_value(t.ctx.ref(), t.ast)     # 1: literally true, -1: literally false
+        if r == 1:
             return True
-        if z3.is_false(t):
+        if r == -1:
             return False
         return SBool(t)
 
@@ -1484,9 +1487,13 @@ class Interp:
         raise Unsupported(f"getitem({c!r})")
 
     def exec(self, st, fr):
-        m = getattr(self, "x_" + type(st).__name__, None)
-        if m is None:
-            raise Unsupported(f"stmt {type(st).__name__} at line {st.lineno}")
+        try:
+            m = self._xdispatch[type(st)]
+        except KeyError:
+            m = getattr(self, "x_" + type(st).__name__, None)
+            if m is None:
+                raise Unsupported(f"stmt {type(st).__name__} at line {st.lineno}")
+            self._xdispatch[type(st)] = m
         return m(st, fr)
 
     def x_Expr(self, st, fr):
@@ -1758,9 +1765,13 @@ class Interp:
 
     # ------------------------------------------------------------------ expressions
     def eval(self, e, fr):
-        m = getattr(self, "e_" + type(e).__name__, None)
-        if m is None:
-            raise Unsupported(f"expr {type(e).__name__} at line {e.lineno}")
+        try:
+            m = self._edispatch[type(e)]
+        except KeyError:
+            m = getattr(self, "e_" + type(e).__name__, None)
+            if m is None:
+                raise Unsupported(f"expr {type(e).__name__} at line {e.lineno}")
+            self._edispatch[type(e)] = m
         return m(e, fr)
 
     def e_Constant(self, e, fr):
